@@ -417,6 +417,8 @@ func genCorpus() {
 	emitQ("a\\", "", "rel=C09ws;g=0;role=a")
 	emitQ("a\\ ", "", "rel=C09ws;g=0;role=b")
 	emitQ(`a:"*"`, "", "rel=C08q;f=61;w=2a")
+	emitQ("NOT a b", "", "rel=C09par;g=1;role=a")
+	emitQ("NOT (a) b", "", "rel=C09par;g=1;role=b")
 	for _, q := range corpusQueries {
 		for _, df := range []string{"", "d"} {
 			emitQ(q, df, "src=corpus")
@@ -624,14 +626,27 @@ func genSem(n int) {
 var nearForms = [][]string{
 	{"a", ":", "b"}, {"a", "=", "5"}, {"a", ":", ">", "5"}, {"a", ":", "<", "=", "5"}, {"a", ":", "[", "1", "TO", "5", "]"}, {"a", ":", "{", "b", "TO", "*", "}"},
 	{"a", ":", "(", "x", "OR", "y", ")"}, {"a", "AND", "b"}, {"a", "OR", "b", "AND", "c"}, {"NOT", "a"}, {"+", "a", "-", "b"}, {"a", "~", "2"}, {"a", "^", "2.5"},
-	{"(", "a", ")"}, {"a", ":", "b", "c", ":", "d"}, {"a", ":", "w*"}, {"a", ":", `"q r"`}, {"a", ":", "/r/"}, {"a", "~"}, {"(", "a", "OR", "b", ")", "^", "2"},
+	{"(", "a", ")"}, {"a", ":", "b", "c", ":", "d"}, {"b", ":", "c", ":", "d"}, {"x", ":", "[", "1", "~", "TO", "2", "]"}, {"(", "b", "OR", "c", ")", ":", "d"}, {"a", ":", "w*"}, {"a", ":", `"q r"`}, {"a", ":", "/r/"}, {"a", "~"}, {"(", "a", "OR", "b", ")", "^", "2"},
 }
 
 func genNearMiss() {
+	k := 0
 	emit := func(w []string) {
 		q := strings.Join(w, " ")
 		emitQ(q, "", "src=nearmiss")
 		emitQ(q, "d", "src=nearmiss")
+		// the same text as an operand: what is not a query on its own is not one inside a group, under a field or an operator either
+		k++
+		switch k % 8 {
+		case 0:
+			emitQ("f : ( "+q+" )", "", "src=nearmiss-embedded")
+		case 2:
+			emitQ("NOT ( "+q+" )", "d", "src=nearmiss-embedded")
+		case 4:
+			emitQ("f : > ( "+q+" )", "", "src=nearmiss-embedded")
+		case 6:
+			emitQ("( "+q+" ) OR z", "", "src=nearmiss-embedded")
+		}
 	}
 	for _, f := range nearForms {
 		emit(f)
